@@ -36,15 +36,15 @@ Section FileOps.
   (* Read(b), len(b) = n  [after the bounds fix: an offset at or beyond the end reads 0 bytes, io.EOF] *)
   Definition f_read (n : Z) : handle * res :=
     match hd_name f with
-    | [] => (f, RErr EG_Invalid)
+    | [] => (f, RFail EG_Invalid)
     | _ =>
         match hd_node f with
-        | None => (f, RErr closed_err)
+        | None => (f, RFail closed_err)
         | Some c =>
             match file_of c with
-            | None => (f, RErr (if isw then EW_IncorrectFunc else EC_IsADirectory))
+            | None => (f, RFail (if isw then EW_IncorrectFunc else EC_IsADirectory))
             | Some (d, _, _, _) =>
-                if negb (has (hd_mode f) OpenRead) then (f, RErr EBadFileDesc)
+                if negb (has (hd_mode f) OpenRead) then (f, RFail EBadFileDesc)
                 else
                   let avail := skipn (Z.to_nat (hd_at f)) d in
                   let got := firstn (Z.to_nat n) avail in
@@ -60,16 +60,16 @@ Section FileOps.
 
   Definition f_read_at (n off : Z) : res :=
     match hd_name f with
-    | [] => RErr EG_Invalid
+    | [] => RFail EG_Invalid
     | _ =>
         match hd_node f with
-        | None => RErr closed_err
+        | None => RFail closed_err
         | Some c =>
             match file_of c with
-            | None => RErr (if isw then EW_IncorrectFunc else EC_IsADirectory)
+            | None => RFail (if isw then EW_IncorrectFunc else EC_IsADirectory)
             | Some (d, _, _, _) =>
-                if Z.ltb off 0 then RErr EG_NegativeOffset
-                else if negb (has (hd_mode f) OpenRead) then RErr EBadFileDesc
+                if Z.ltb off 0 then RFail EG_NegativeOffset
+                else if negb (has (hd_mode f) OpenRead) then RFail EBadFileDesc
                 else if Z.ltb (Z.of_nat (length d)) off then RBytes 0 [] (Some EG_EOF)
                 else
                   let got := firstn (Z.to_nat n) (skipn (Z.to_nat off) d) in
@@ -91,15 +91,15 @@ Section FileOps.
   (* Write(b)  [after the fixes: append mode writes at the current end; a gap is zero filled] *)
   Definition f_write (b : list N) : fsys * handle * res :=
     match hd_name f with
-    | [] => (s, f, RErr EG_Invalid)
+    | [] => (s, f, RFail EG_Invalid)
     | _ =>
         match hd_node f with
-        | None => (s, f, RErr closed_err)
+        | None => (s, f, RFail closed_err)
         | Some c =>
             match file_of c with
-            | None => (s, f, RErr (if isw then EW_AccessDenied else EC_BadFileDesc))
+            | None => (s, f, RFail (if isw then EW_AccessDenied else EC_BadFileDesc))
             | Some (d, k, i, m) =>
-                if negb (has (hd_mode f) OpenWrite) then (s, f, RErr (if isw then EW_AccessDenied else EC_BadFileDesc))
+                if negb (has (hd_mode f) OpenWrite) then (s, f, RFail (if isw then EW_AccessDenied else EC_BadFileDesc))
                 else
                   let at_ := if has (hd_mode f) OpenAppend then Z.of_nat (length d) else hd_at f in
                   let d' := write_at_data d (Z.to_nat at_) b in
@@ -110,18 +110,18 @@ Section FileOps.
     end.
 
   Definition f_write_at (b : list N) (off : Z) : fsys * res :=
-    if Z.ltb off 0 then (s, RErr EG_NegativeOffset)
+    if Z.ltb off 0 then (s, RFail EG_NegativeOffset)
     else
       match hd_name f with
-      | [] => (s, RErr EG_Invalid)
+      | [] => (s, RFail EG_Invalid)
       | _ =>
           match hd_node f with
-          | None => (s, RErr closed_err)
+          | None => (s, RFail closed_err)
           | Some c =>
               match file_of c with
-              | None => (s, RErr (if isw then EW_AccessDenied else EC_BadFileDesc))
+              | None => (s, RFail (if isw then EW_AccessDenied else EC_BadFileDesc))
               | Some (d, k, i, m) =>
-                  if negb (has (hd_mode f) OpenWrite) then (s, RErr (if isw then EW_AccessDenied else EC_BadFileDesc))
+                  if negb (has (hd_mode f) OpenWrite) then (s, RFail (if isw then EW_AccessDenied else EC_BadFileDesc))
                   else
                     (* diff := off + len(b) - size ; if diff > 0 extend : even for an empty b *)
                     let d' := write_at_data d (Z.to_nat off) b in
@@ -132,10 +132,10 @@ Section FileOps.
 
   Definition f_seek (offset : Z) (whence : Z) : handle * res :=
     match hd_name f with
-    | [] => (f, RErr EG_Invalid)
+    | [] => (f, RFail EG_Invalid)
     | _ =>
         match hd_node f with
-        | None => (f, RErr closed_err)
+        | None => (f, RFail closed_err)
         | Some c =>
             match file_of c with
             | None => (f, RInt 0)
@@ -146,8 +146,8 @@ Section FileOps.
                               else if Z.eqb whence 2 then Some (size + offset)%Z
                               else None in
                 match target with
-                | None => if isw then (f, RInt 0) else (f, RErr EInvalidArgument)
-                | Some t => if Z.ltb t 0 then (f, RErr EInvalidArgument) else (set_at t, RInt t)
+                | None => if isw then (f, RInt 0) else (f, RFail EInvalidArgument)
+                | Some t => if Z.ltb t 0 then (f, RFail EInvalidArgument) else (set_at t, RInt t)
                 end
             end
         end
@@ -155,17 +155,17 @@ Section FileOps.
 
   Definition f_truncate (size : Z) : fsys * res :=
     match hd_name f with
-    | [] => (s, RErr EG_Invalid)
+    | [] => (s, RFail EG_Invalid)
     | _ =>
-        if Z.ltb size 0 then (s, RErr EInvalidArgument)
+        if Z.ltb size 0 then (s, RFail EInvalidArgument)
         else
           match hd_node f with
-          | None => (s, RErr closed_err)
+          | None => (s, RFail closed_err)
           | Some c =>
               match file_of c with
-              | None => (s, RErr (if isw then EW_AccessDenied else EC_InvalidArgument))
+              | None => (s, RFail (if isw then EW_AccessDenied else EC_InvalidArgument))
               | Some (d, k, i, m) =>
-                  if negb (has (hd_mode f) OpenWrite) then (s, RErr (if isw then EW_AccessDenied else EC_InvalidArgument))
+                  if negb (has (hd_mode f) OpenWrite) then (s, RFail (if isw then EW_AccessDenied else EC_InvalidArgument))
                   else (with_heap s (upd h c (NFile (truncate_data d size) k i m)), ROk)
               end
           end
@@ -173,10 +173,10 @@ Section FileOps.
 
   Definition f_stat : res :=
     match hd_name f with
-    | [] => RErr EG_Invalid
+    | [] => RFail EG_Invalid
     | _ =>
         match hd_node f with
-        | None => RErr (if isw then EW_InvalidHandle else EG_FileClosing)
+        | None => RFail (if isw then EW_InvalidHandle else EG_FileClosing)
         | Some c =>
             match get h c with
             | Some n => RInfo (fill_stat n (base (v_os v) (hd_name f)))
@@ -187,40 +187,40 @@ Section FileOps.
 
   Definition f_sync : res :=
     match hd_name f with
-    | [] => RErr EG_Invalid
-    | _ => match hd_node f with None => RErr closed_err | Some _ => ROk end
+    | [] => RFail EG_Invalid
+    | _ => match hd_node f with None => RFail closed_err | Some _ => ROk end
     end.
 
   Definition f_chmod (mode : N) : fsys * res :=
     match hd_name f with
-    | [] => (s, RErr EG_Invalid)
+    | [] => (s, RFail EG_Invalid)
     | _ =>
         match hd_node f with
-        | None => (s, RErr closed_err)
+        | None => (s, RFail closed_err)
         | Some c =>
             match get h c with
-            | Some (NSym _ _) | None => (s, RErr EPermDenied)
+            | Some (NSym _ _) | None => (s, RFail EPermDenied)
             | Some n =>
                 if set_mode_ok (node_meta n) (v_user v)
                 then (with_heap s (upd h c (set_meta n (with_mode (node_meta n) mode))), ROk)
-                else (s, RErr EPermDenied)
+                else (s, RFail EPermDenied)
             end
         end
     end.
 
   Definition f_chown (uid gid : Z) : fsys * res :=
     match hd_name f with
-    | [] => (s, RErr EG_Invalid)
+    | [] => (s, RFail EG_Invalid)
     | _ =>
         match hd_node f with
-        | None => (s, RErr closed_err)
+        | None => (s, RFail closed_err)
         | Some c =>
-            if isw then (s, RErr EW_NotSupported)
+            if isw then (s, RFail EW_NotSupported)
             else match get h c with
                  | Some n =>
                      if check_permission (node_meta n) OpenWrite (v_user v)
                      then (with_heap s (upd h c (set_meta n (with_owner (node_meta n) uid gid))), ROk)
-                     else (s, RErr EOpNotPermitted)
+                     else (s, RFail EOpNotPermitted)
                  | None => (s, RPanic)
                  end
         end
@@ -229,18 +229,18 @@ Section FileOps.
   (* Chdir: returns the new current directory *)
   Definition f_chdir : res + str :=
     match hd_name f with
-    | [] => inl (RErr EG_Invalid)
+    | [] => inl (RFail EG_Invalid)
     | _ =>
         match hd_node f with
-        | None => inl (RErr closed_err)
+        | None => inl (RFail closed_err)
         | Some c => if node_is_dir h c then inr (hd_name f)
-                    else inl (RErr (if isw then EW_DirNameInvalid else EC_NotADirectory))
+                    else inl (RFail (if isw then EW_DirNameInvalid else EC_NotADirectory))
         end
     end.
 
   Definition f_close : handle * res :=
     match hd_node f with
-    | None => (f, RErr (match hd_name f with [] => EG_Invalid | _ => closed_err end))
+    | None => (f, RFail (match hd_name f with [] => EG_Invalid | _ => closed_err end))
     | Some _ =>
         ({| hd_node := None; hd_view := hd_view f; hd_name := hd_name f; hd_at := hd_at f; hd_mode := hd_mode f;
             hd_dir_infos := None; hd_dir_names := None; hd_dir_index := hd_dir_index f |}, ROk)
@@ -251,10 +251,10 @@ Section FileOps.
   (* ReadDir(n), memfs_file.go:297 *)
   Definition f_read_dir (n : Z) : handle * res :=
     match hd_name f with
-    | [] => (f, RErr EG_Invalid)
+    | [] => (f, RFail EG_Invalid)
     | _ =>
         match hd_node f with
-        | None => (f, RErr (if isw then EW_InvalidHandle else EG_FileClosing))
+        | None => (f, RFail (if isw then EW_InvalidHandle else EG_FileClosing))
         | Some c =>
             match get h c with
             | Some (NDir ch _) =>
@@ -272,7 +272,7 @@ Section FileOps.
                   else
                     let e := Nat.min (ix + Z.to_nat n) (length l) in
                     (upd_h cache e, RInfos (firstn (e - ix) (skipn ix l)) None)
-            | _ => (f, RErr ENotADirectory)
+            | _ => (f, RFail ENotADirectory)
             end
         end
     end.
@@ -280,10 +280,10 @@ Section FileOps.
   (* Readdirnames(n), memfs_file.go:374 : own cache, shared index *)
   Definition f_readdirnames (n : Z) : handle * res :=
     match hd_name f with
-    | [] => (f, RErr EG_Invalid)
+    | [] => (f, RFail EG_Invalid)
     | _ =>
         match hd_node f with
-        | None => (f, RErr (if isw then EW_InvalidHandle else EG_FileClosing))
+        | None => (f, RFail (if isw then EW_InvalidHandle else EG_FileClosing))
         | Some c =>
             match get h c with
             | Some (NDir ch _) =>
@@ -301,7 +301,7 @@ Section FileOps.
                   else
                     let e := Nat.min (ix + Z.to_nat n) (length l) in
                     (upd_h cache e, RNames (firstn (e - ix) (skipn ix l)) None)
-            | _ => (f, RErr ENotADirectory)
+            | _ => (f, RFail ENotADirectory)
             end
         end
     end.
@@ -315,19 +315,19 @@ Definition read_dir (s : fsys) (v : view) (name : str) : res :=
   | (s1, inr f) => snd (f_read_dir s1 v f (-1))
   end.
 
-(* ReadFile(name): OpenFile(O_RDONLY) ; Stat ; Read until EOF *)
+(* ReadFile(name): OpenFile(O_RDONLY) ; Stat (size hint) ; Read until io.EOF or an error.
+   One Read with a buffer larger than the file returns all of it; the next returns io.EOF. *)
 Definition read_file (s : fsys) (v : view) (name : str) : res :=
   match open_file s v 0 name 0 0 with
   | (_, inl r) => r
   | (s1, inr f) =>
-      match hd_node f with
-      | Some c =>
-          match get (f_heap s1) c with
-          | Some (NFile d _ _ _) =>
-              if has (hd_mode f) OpenRead then RBytes (Z.of_nat (length d)) d None else RErr EBadFileDesc
-          | _ => RErr (if win v then EW_IncorrectFunc else EC_IsADirectory)
-          end
-      | None => RPanic
+      let size := match hd_node f with
+                  | Some c => match get (f_heap s1) c with Some (NFile d _ _ _) => Z.of_nat (length d) | _ => 0%Z end
+                  | None => 0%Z
+                  end in
+      match f_read s1 v f (size + 512) with
+      | (_, RBytes k b _) => RBytes k b None
+      | (_, r) => r
       end
   end.
 
